@@ -21,6 +21,7 @@ import json, os, re, threading
 from vlib import Inconclusive
 
 REAL = dict(step=5000, query=100, both=1000, agg=1000)
+MAXFLOW = 50000
 HARD = {"rows-too-many", "rows-too-few", "goroutines-not-released", "temp-not-released", "source-not-stopped"}
 
 
@@ -115,6 +116,9 @@ def gen_cases(ctx):
                 cases.append(c)
     if not cases:
         raise Inconclusive("no cases generated")
+    # star and bipartite graphs square the volume in two steps (V().both().outE() on star(1000): 10^6 rows); the runs stay
+    # within a few multiples of the largest buffer so that a run takes seconds, not minutes
+    cases = [c for c in cases if max(c["flows"]) <= MAXFLOW]
     return cases
 
 
@@ -479,7 +483,8 @@ def run(ctx):
     ctx.assumptions += [
         "client protocol: a cancel is the cancellation of the context passed to pipeline.Run and the client keeps draining the result channel "
         "(server/api.go:Traversal does); a client that stops reading is outside the property",
-        "traversals without mark/jump loops (C12) on kvgraph over Badger; graph families star / chain / complete bipartite, up to ~20k elements",
+        "traversals without mark/jump loops (C12) on kvgraph over Badger; graph families star / chain / complete bipartite, up to ~20k elements, "
+        "at most %d rows through any step" % MAXFLOW,
         "released = no goroutine with a grip frame that did not exist before the run survives a 10 s settle period, and the run's work directory is empty; "
         "amounts of memory are not part of the property",
         "'the source stops' is only judged when the source holds more than need + 1.25 x everything the implementation-shaped model "
